@@ -10,6 +10,7 @@ mod plevel_ext;
 mod plevel_logic;
 mod plevel_global;
 mod lp;
+mod fsolve;
 mod api;
 mod mlevel;
 mod mroutes;
@@ -45,6 +46,10 @@ fn main() {
         "ctx" => plevel::run_ctx,
         "view" => plevel::run_view,
         "lp" => lp::run_case,
+        "propf" => fsolve::run_propf,
+        "searchf" => fsolve::run_searchf,
+        "solvef" => fsolve::run_solvef,
+        "lowerf" => fsolve::run_lowerf,
         "api" => api::run_case,
         "lower" => mlevel::run_lower,
         "msolve" => mlevel::run_msolve,
